@@ -47,14 +47,8 @@ func ResourceMatches(resources []string, combinedRequestedResource, requestedSub
 		}
 
 		// if the rule isn't in the format */subresource, then we don't match, continue
-		if strings.HasPrefix(m.value, "*/") {
-			allSubresource := "*/" + requestedSubresource
-			if (!m.reverse && m.value == allSubresource) ||
-				(m.reverse && m.value != allSubresource) {
-				return true
-			}
-		}
-		return false
+		// (inverted rules are complemented by simpleMatches)
+		return m.value == "*/"+requestedSubresource
 	})
 }
 
@@ -125,19 +119,27 @@ func simpleMatches(rules []string, requests []string, matchFn ...func(m matcher)
 		return true
 	}
 
+	if len(filtered) == 0 {
+		return false
+	}
+
+	// filterRules returns either only positive rules or only reversed rules.
+	// A reversed list matches exactly the requests which the corresponding
+	// positive list does not match, so evaluate the positive list and invert the result.
+	reverse := filtered[0].reverse
 	for _, v := range filtered {
 		for _, request := range requests {
 			if v.match(request) {
-				return true
+				return !reverse
 			}
 		}
 		for _, match := range matchFn {
 			if match(v) {
-				return true
+				return !reverse
 			}
 		}
 	}
-	return false
+	return reverse
 }
 
 type matcher struct {
@@ -145,10 +147,8 @@ type matcher struct {
 	value   string
 }
 
+// match reports whether the rule value equals request, the reverse flag is handled by the caller
 func (m matcher) match(request string) bool {
-	if m.reverse {
-		return m.value != request
-	}
 	return m.value == request
 }
 
